@@ -56,6 +56,9 @@ func classifyExits(loop map[*ssa.BasicBlock]bool) []loopExit {
 					if _, ok := cv.Y.(*ssa.Const); ok {
 						e.kind = "exhausted" // range over an integer / constant-length array
 					}
+					if _, ok := cv.X.(*ssa.Phi); ok {
+						e.kind = "exhausted" // counted loop: i < bound with i the induction variable
+					}
 				}
 				// linked-list walk: for e := l.Front(); e != nil; e = ...
 				if (cv.Op == token.NEQ && si == 1 || cv.Op == token.EQL && si == 0) && (isNilConst(cv.X) || isNilConst(cv.Y)) {
